@@ -4,6 +4,7 @@ from common import *
 
 SCRATCH = os.environ.get("VERIF_SCRATCH", "/tmp/verif-replay")
 _built = {}
+PROM_BINS = {"c18", "c07", "c08", "c19"}      # replay programs that need the Prometheus exporter (own crate: hyper/tokio are slow to build)
 
 
 def plan_text(scenario, violated, threads, sched_rows, inputs):
@@ -29,10 +30,13 @@ def build(binname):
         log(r.stdout + r.stderr)
         _built[binname] = None
         return None
-    cdir = os.path.join(root, "crate")
-    if os.path.exists(cdir):
-        shutil.rmtree(cdir)
-    shutil.copytree(os.path.join(VERIF, "replay", "crate"), cdir)
+    for sub in ("crate", "crate-prom"):
+        cdir = os.path.join(root, sub)
+        if os.path.exists(cdir):
+            shutil.rmtree(cdir)
+        shutil.copytree(os.path.join(VERIF, "replay", sub), cdir, ignore=shutil.ignore_patterns("target", "Cargo.lock"))
+    prom = binname in PROM_BINS
+    cdir = os.path.join(root, "crate-prom" if prom else "crate")
     # the scenario harness is linked into the replay programs too (same Rust source as the MIR that was executed)
     hdir = os.path.join(root, "mirharness")
     if os.path.exists(hdir):
@@ -46,13 +50,14 @@ def build(binname):
     env = dict(os.environ)
     env["RUSTFLAGS"] = f"--cfg {GUARD}"
     env["CARGO_NET_OFFLINE"] = "true"
-    r = subprocess.run(["cargo", "+1.74.0", "build", "--offline", "--bin", binname, "--target-dir", os.path.join(BUILD, "replay-e3")],
+    tdir = os.path.join(BUILD, "replay-e3-prom" if prom else "replay-e3")
+    r = subprocess.run(["cargo", "+1.74.0", "build", "--offline", "--bin", binname, "--target-dir", tdir],
                        cwd=cdir, capture_output=True, text=True, env=env)
     if r.returncode != 0:
         log("replay build failed:\n" + r.stderr[-3000:])
         _built[binname] = None
         return None
-    _built[binname] = os.path.join(BUILD, "replay-e3", "debug", binname)
+    _built[binname] = os.path.join(tdir, "debug", binname)
     return _built[binname]
 
 
